@@ -57,6 +57,11 @@ def _worker_loop(fn, arglist, rfd, wfd):
     import faulthandler
     import gc
     faulthandler.enable()
+    try:
+        tbf = open(os.path.join(boot.scratch_root(), 'tb_%d.txt' % os.getpid()), 'w')
+        faulthandler.register(signal.SIGUSR1, file=tbf, all_threads=False)
+    except Exception:   # noqa
+        pass
     base_limit = sys.getrecursionlimit()
     try:
         while True:
@@ -204,9 +209,17 @@ def run_many(fn, arglist, workers=16, timeout=600, wall_s=None, on_result=None,
                             res = {'harness_error': 'undecodable record'}
                         finish(w, res)
             elif now - w.start > timeout:
+                tb = ''
+                try:
+                    os.kill(w.pid, signal.SIGUSR1)
+                    time.sleep(0.7)
+                    with open(os.path.join(boot.scratch_root(), 'tb_%d.txt' % w.pid)) as f:
+                        tb = f.read()[:3000]
+                except Exception:   # noqa
+                    pass
                 w.kill()
                 pool.remove(w)
-                finish(w, {'harness_timeout': True})
+                finish(w, {'harness_timeout': True, 'traceback': tb})
     return results
 
 
@@ -267,6 +280,8 @@ def run_check(check, tier, seed, out=sys.stdout):
     def on_result(idx, res):
         if res.get('harness_timeout'):
             agg['timeouts'] += 1
+            agg.setdefault('timeout_info', []).append(
+                {'run_seed': run_seeds[idx], 'traceback': res.get('traceback', '')[:2000]})
             agg['runs'] += 1
             agg['status']['harness_timeout'] = agg['status'].get('harness_timeout', 0) + 1
             return
@@ -383,6 +398,7 @@ def run_check(check, tier, seed, out=sys.stdout):
                                    for k, v in known_hit.items()},
             'violations_reported': reported,
             'harness_timeouts': agg['timeouts'],
+            'harness_timeout_info': agg.get('timeout_info', [])[:3],
             'workers': workers,
         },
         'assumptions': check.ASSUMPTIONS,
